@@ -80,7 +80,7 @@ pub fn anchor() -> SweepProfile {
         flags: vec![fl(""), fl("m")],
         alphabet: vec!['a' as u32, 'b' as u32, '\n' as u32],
         size_quick: 6,
-        size_thorough: 7,
+        size_thorough: 6,
         hay_quick: 3,
         hay_thorough: 4,
     }
